@@ -101,6 +101,7 @@ pub fn library_entries() -> Vec<TypeEntry> {
         entry!([i32; 4]),
         entry!([f32; 4]),
         entry!([u64; 4]),
+        entry!([u8; 10001]),
         entry!([[u16; 2]; 2]),
         entry!(Vec<Option<[u16; 3]>>),
         entry!(Vec<Option<[u64; 3]>>),
